@@ -3,7 +3,7 @@ import re
 CONFIG = dict(
     bin="c19",
     drv="drv_c19",
-    lean_modules=["MahfModel.Props.C19"],
+    lean_modules=["MahfModel.Props.C19", "MahfModel.Props.C19Run"],
     namespaces=["MahfModel.Props.C19"],
     shrink_lists=["pop"],
     level="proof",
